@@ -16,10 +16,10 @@ import (
 
 // Case is one generated input together with what the implementation did on it.
 type Case struct {
-	Coq        string          `json:"-"`       // Coq term of the property's case type
-	Desc       json.RawMessage `json:"desc"`    // input only; enough to re-run (replay)
-	Tags       []string        `json:"tags"`    // known-finding signatures this input matches
-	Size       int             `json:"size"`    // for picking the smallest failing case
+	Coq        string          `json:"-"`    // Coq term of the property's case type
+	Desc       json.RawMessage `json:"desc"` // input only; enough to re-run (replay)
+	Tags       []string        `json:"tags"` // known-finding signatures this input matches
+	Size       int             `json:"size"` // for picking the smallest failing case
 	Nontrivial bool            `json:"nontrivial"`
 	Class      string          `json:"class"`   // bucket for the input distribution
 	Summary    string          `json:"summary"` // human-readable one-liner
@@ -199,13 +199,13 @@ func (r *Rng) Intn(n int) int {
 	}
 	return int(r.U64() % uint64(n))
 }
-func (r *Rng) Bool() bool          { return r.U64()&1 == 1 }
+func (r *Rng) Bool() bool           { return r.U64()&1 == 1 }
 func (r *Rng) Chance(p, q int) bool { return r.Intn(q) < p }
-func Pick[T any](r *Rng, xs []T) T { return xs[r.Intn(len(xs))] }
+func Pick[T any](r *Rng, xs []T) T  { return xs[r.Intn(len(xs))] }
 
 // ---------- Coq term printing ----------
 
-func cN(n int) string { return fmt.Sprintf("%d%%N", n) }
+func cN(n int) string   { return fmt.Sprintf("%d%%N", n) }
 func cNat(n int) string { return fmt.Sprintf("%d%%nat", n) }
 func cZ(z int64) string {
 	if z < 0 {
